@@ -32,6 +32,7 @@ fn main() {
         "num-rows-c08" => numeric::rows_c08(rest),
         "num-rows-c17" => numeric::rows_c17(rest),
         "resp-rows-c09" => resp::rows_c09(rest),
+        "resp-f32-sweep" => resp::f32_sweep(rest),
         "resp-rows-c20" => resp::rows_c20(rest),
         "queue-edges" => queue::replay_edges(rest),
         "queue-trace" => queue::record_trace(rest),
